@@ -2,57 +2,20 @@
 (* The input space on which TLC evaluates the executable specification VMSem (C13):
    opcode x boundary-operand tuples per instruction family, hand-shaped control-flow / exception
    templates, and short instruction sequences (exhaustive over a reduced opcode set).
-   A case is [fam, prog, init, h]: program (decoded instructions), initial stack literals (bottom first)
-   and a selection hash h: the quick tier keeps the cases with h % Thin = 0 (Thin = 1: everything),
-   the selection moves with Seed.  Seeded pseudo-random operands extend the boundary sets. *)
-EXTENDS VMSem, TLC
+   A case is [fam, prog, init]: program (decoded instructions) and initial stack literals (bottom first).
+   The big products are thinned by a factor derived from Thin (T(d)); which tuples are kept moves with Seed
+   (Sel).  Seeded pseudo-random operands extend the boundary sets. *)
+EXTENDS VMLit
 
-CONSTANTS Seed,      \* VERIF_SEED
-          Thin,      \* thinning of the big products (1 = exhaustive product)
+CONSTANTS Thin,      \* thinning of the big products (1 = exhaustive product)
           SeqLen     \* maximal length of the exhaustive instruction sequences (2 or 3)
 
 -----------------------------------------------------------------------------
-(* initial-stack literals: values without heap references; compound literals are nested *)
-GenBytes(g) == [i \in 1..g[1] |-> (i * g[2] + g[3]) % 256]
-LitBytes(l) == IF "gen" \in DOMAIN l THEN GenBytes(l.gen) ELSE l.s
-RECURSIVE LoadVal(_, _)
-RECURSIVE LoadSeq(_, _, _, _)
-LoadSeq(heap, lits, i, acc) ==
-    IF i > Len(lits) THEN [heap |-> heap, vs |-> acc]
-    ELSE LET r == LoadVal(heap, lits[i]) IN LoadSeq(r.heap, lits, i + 1, Append(acc, r.v))
-LoadVal(heap, l) ==
-    CASE l.t \in {"Integer", "Boolean", "Null"} -> [heap |-> heap, v |-> l]
-      [] l.t = "ByteString" -> [heap |-> heap, v |-> BytesV(LitBytes(l))]
-      [] l.t = "Buffer" -> LET a == Alloc(heap, [k |-> "Buffer", s |-> LitBytes(l)]) IN [heap |-> a.heap, v |-> RefV("Buffer", a.r)]
-      [] l.t \in {"Array", "Struct"} ->
-            LET c == LoadSeq(heap, l.items, 1, <<>>)  a == Alloc(c.heap, [k |-> l.t, items |-> c.vs])
-            IN [heap |-> a.heap, v |-> RefV(l.t, a.r)]
-      [] l.t = "Map" ->
-            LET c == LoadSeq(heap, l.vals, 1, <<>>)
-                a == Alloc(c.heap, [k |-> "Map", keys |-> [i \in 1..Len(l.keys) |-> LoadVal(heap, l.keys[i]).v], vals |-> c.vs])
-            IN [heap |-> a.heap, v |-> RefV("Map", a.r)]
-ExpandIns(ins) == IF "gen" \in DOMAIN ins THEN [op |-> ins.op, b |-> GenBytes(ins.gen)] ELSE ins
-LoadCase(c) == LET l == LoadSeq(<<>>, c.init, 1, <<>>)
-               IN Machine([i \in 1..Len(c.prog) |-> ExpandIns(c.prog[i])], l.vs, l.heap)
-
------------------------------------------------------------------------------
 (* operands *)
-I(k) == BI!FromInt(k)
-P(n) == BI!Pow2(n)
-LI(n) == [t |-> "Integer", n |-> n]
-LB(s) == [t |-> "ByteString", s |-> s]
-LBuf(s) == [t |-> "Buffer", s |-> s]
-LBool(b) == [t |-> "Boolean", b |-> b]
-LNull == [t |-> "Null"]
-LArr(items) == [t |-> "Array", items |-> items]
-LStruct(items) == [t |-> "Struct", items |-> items]
-LMap(keys, vals) == [t |-> "Map", keys |-> keys, vals |-> vals]
-LK(k) == LI(I(k))
-
 \* seeded pseudo-random big integer of at most 15*limbs bits (never the forbidden trailing zero limb)
 RndBig(k, limbs, neg) ==
-    BI!Mk(neg, [i \in 1..limbs |-> IF i = limbs THEN 1 + ((Seed * 7919 + k * 104729 + i * 1543) % 32767)
-                                   ELSE (Seed * 15013 + k * 31337 + i * 7717) % 32768])
+    BI!Mk(neg, [i \in 1..limbs |-> IF i = limbs THEN 1 + (((Seed % 10007) * 7919 + k * 104729 + i * 1543) % 32767)
+                                   ELSE ((Seed % 10007) * 15013 + k * 31337 + i * 7717) % 32768])
 
 \* the boundary set of the property statement that fits an Integer item ...
 IntsCore == << I(0), I(1), I(-1), I(2), I(-2),
@@ -83,10 +46,12 @@ LongGen(n) == [t |-> "ByteString", gen |-> <<n, 7, Seed % 251>>]
 LongStrs == << LongGen(65535), LongGen(65536), LongGen(65537), LongGen(131069), LongGen(131070) >>
 LongBufs == << [t |-> "Buffer", gen |-> <<65535, 3, 1>>], [t |-> "Buffer", gen |-> <<131070, 5, 2>>] >>
 
+\* a map large enough for any accidental dependence on hash-map iteration order to show
+BigMap == LMap([i \in 1..12 |-> LK(7 * i - 20)], [i \in 1..12 |-> IF i % 4 = 0 THEN LStruct(<<LK(i)>>) ELSE LK(100 + i)])
 \* items of every other type
 Others == << LNull, LBool(TRUE), LBool(FALSE), LBuf(<<>>), LBuf(<<1>>), LBuf(<<0, 0>>), LBuf(Repeat(255, 32)), LBuf(Repeat(1, 33)),
              LArr(<<>>), LArr(<<LK(1), LK(2), LK(3)>>), LStruct(<<>>), LStruct(<<LK(1), LB(<<2>>)>>),
-             LMap(<<>>, <<>>), LMap(<<LK(1), LB(<<107>>), LBool(TRUE)>>, <<LK(10), LK(20), LNull>>) >>
+             LMap(<<>>, <<>>), LMap(<<LK(1), LB(<<107>>), LBool(TRUE)>>, <<LK(10), LK(20), LNull>>), BigMap >>
 \* a short list with one representative of every kind (for the big products)
 Mixed == << LK(0), LK(1), LK(-1), LI(BI!Sub(P(255), I(1))), LI(BI!Neg(P(255))), LB(<<>>), LB(<<1>>), LB(<<0, 0>>), LB(Repeat(255, 32)),
             LB(Bytes32(128)), LB(Repeat(0, 33)), LNull, LBool(TRUE), LBool(FALSE), LBuf(<<1>>), LArr(<<>>), LStruct(<<LK(1)>>),
@@ -95,9 +60,7 @@ AllOperands == IntLits(Ints) \o StrLits \o Others
 
 -----------------------------------------------------------------------------
 (* product helpers; the generator gets the elements and their indices *)
-Hash(a, b, c, d) == (a * 131 + b * 137 + c * 139 + d * 149 + Seed * 151) % 1000003
-Case(fam, prog, init, h) == [fam |-> fam, prog |-> prog, init |-> init, h |-> h]
-Op(o) == [op |-> o]
+Case(fam, prog, init, h) == [fam |-> fam, prog |-> prog, init |-> init]
 Prod2(X, Y, F(_, _, _, _)) ==
     [k \in 1..(Len(X) * Len(Y)) |-> LET i == ((k - 1) \div Len(Y)) + 1  j == ((k - 1) % Len(Y)) + 1 IN F(X[i], Y[j], i, j)]
 Prod3(X, Y, Z, F(_, _, _, _, _, _)) ==
@@ -110,69 +73,81 @@ Prod4(W, X, Y, Z, F(_, _, _, _, _, _, _, _)) ==
             h == ((k - 1) \div xyz) + 1  i == (((k - 1) \div yz) % Len(X)) + 1
             j == (((k - 1) \div Len(Z)) % Len(Y)) + 1  l == ((k - 1) % Len(Z)) + 1
         IN F(W[h], X[i], Y[j], Z[l], h, i, j, l)]
-Thinned(s, t) == IF t = 1 THEN s ELSE SelectSeq(s, LAMBDA c : c.h % t = 0)
+\* thinned products: only the selected index tuples are materialised.  Sel spreads the selection over all
+\* dimensions (multiplicative hash modulo a prime, threshold on the value) and moves with Seed.
+Sel(k, salt, t) == t = 1 \/ (((k % 10007) * 7919 + (k \div 10007) * 4673 + (salt % 10007) * 3301 + (Seed % 10007) * 1201) % 10007) * t < 10007
+T(d) == IF Thin \div d < 1 THEN 1 ELSE Thin \div d        \* family-specific thinning derived from Thin
+Picked(n, t) == SelectSeq([k \in 1..n |-> k], LAMBDA k : Sel(k, n, t))
+TProd2(X, Y, F(_, _, _, _), t) ==
+    LET ks == Picked(Len(X) * Len(Y), t) IN
+    [p \in 1..Len(ks) |-> LET k == ks[p]  i == ((k - 1) \div Len(Y)) + 1  j == ((k - 1) % Len(Y)) + 1 IN F(X[i], Y[j], i, j)]
+TProd3(X, Y, Z, F(_, _, _, _, _, _), t) ==
+    LET ks == Picked(Len(X) * Len(Y) * Len(Z), t) IN
+    [p \in 1..Len(ks) |-> LET k == ks[p]
+        i == ((k - 1) \div (Len(Y) * Len(Z))) + 1  j == (((k - 1) \div Len(Z)) % Len(Y)) + 1  l == ((k - 1) % Len(Z)) + 1
+        IN F(X[i], Y[j], Z[l], i, j, l)]
+TProd4(W, X, Y, Z, F(_, _, _, _, _, _, _, _), t) ==
+    LET ks == Picked(Len(W) * Len(X) * Len(Y) * Len(Z), t) IN
+    [p \in 1..Len(ks) |-> LET k == ks[p]  yz == Len(Y) * Len(Z)  xyz == Len(X) * yz
+            h == ((k - 1) \div xyz) + 1  i == (((k - 1) \div yz) % Len(X)) + 1
+            j == (((k - 1) \div Len(Z)) % Len(Y)) + 1  l == ((k - 1) % Len(Z)) + 1
+        IN F(W[h], X[i], Y[j], Z[l], h, i, j, l)]
 
 -----------------------------------------------------------------------------
 (* families *)
 UnOps == << "INVERT", "SIGN", "ABS", "NEGATE", "INC", "DEC", "SQRT", "NZ", "NOT", "ISNULL", "SIZE", "DUP", "DROP",
             "NEWBUFFER", "NEWARRAY", "NEWSTRUCT", "KEYS", "VALUES", "UNPACK", "CLEARITEMS", "POPITEM", "REVERSEITEMS",
             "THROW", "ASSERT", "CALLA", "XDROP", "PICK", "ROLL", "REVERSEN", "PACK", "PACKMAP", "PACKSTRUCT" >>
-FamUn == Prod2(UnOps, AllOperands, LAMBDA o, x, i, j : Case("un", <<Op(o)>>, <<x>>, 0))
+FamUn == TProd2(UnOps, AllOperands, LAMBDA o, x, i, j : Case("un", <<Op(o)>>, <<x>>, 0), T(13))
 
 BinOps == << "ADD", "SUB", "MUL", "DIV", "MOD", "AND", "OR", "XOR", "NUMEQUAL", "NUMNOTEQUAL", "LT", "LE", "GT", "GE",
              "MIN", "MAX", "BOOLAND", "BOOLOR", "EQUAL", "NOTEQUAL" >>
-FamBin == Thinned(Prod3(BinOps, IntLits(Ints), IntLits(Ints),
-                        LAMBDA o, x, y, i, j, l : Case("bin", <<Op(o)>>, <<x, y>>, Hash(i, j, l, 1))), Thin)
+FamBin == TProd3(BinOps, IntLits(Ints), IntLits(Ints),
+                        LAMBDA o, x, y, i, j, l : Case("bin", <<Op(o)>>, <<x, y>>, 0), T(1))
 \* every kind of item against every kind of item, and integers against byte-string encodings
 BinAllOps == BinOps \o << "CAT", "SHL", "SHR", "POW", "PICKITEM", "HASKEY", "APPEND", "REMOVE", "LEFT", "RIGHT", "SWAP", "OVER", "NIP", "TUCK" >>
-FamBinMixed == Thinned(Prod3(BinAllOps, Mixed, Mixed,
-                        LAMBDA o, x, y, i, j, l : Case("binmixed", <<Op(o)>>, <<x, y>>, Hash(i, j, l, 2))), IF Thin = 1 THEN 1 ELSE 3)
-FamBinStr == Thinned(Prod3(<<"ADD", "NUMEQUAL", "EQUAL", "LT", "AND", "BOOLAND", "CAT", "MIN">>, StrLits, IntLits(IntsCore) \o StrLits,
-                        LAMBDA o, x, y, i, j, l : Case("binstr", <<Op(o)>>, <<x, y>>, Hash(i, j, l, 3))), IF Thin = 1 THEN 1 ELSE 5)
+FamBinMixed == TProd3(BinAllOps, Mixed, Mixed,
+                        LAMBDA o, x, y, i, j, l : Case("binmixed", <<Op(o)>>, <<x, y>>, 0), T(4))
+FamBinStr == TProd3(<<"ADD", "NUMEQUAL", "EQUAL", "LT", "AND", "BOOLAND", "CAT", "MIN">>, StrLits, IntLits(IntsCore) \o StrLits,
+                        LAMBDA o, x, y, i, j, l : Case("binstr", <<Op(o)>>, <<x, y>>, 0), T(4))
 
 ShiftCounts == IntLits(<< I(0), I(1), I(2), I(7), I(8), I(15), I(16), I(254), I(255), I(256), I(257), I(-1), I(2147483647),
                           BI!Add(I(2147483647), I(1)), P(63), BI!Neg(P(255)) >>) \o << LNull, LB(<<>>), LB(<<1, 0>>), LBool(TRUE), LBuf(<<1>>) >>
-FamShift == Thinned(Prod3(<<"SHL", "SHR">>, IntLits(Ints) \o <<LB(<<>>), LB(Repeat(255, 32)), LB(Repeat(0, 33)), LNull, LBool(TRUE), LArr(<<>>), LBuf(<<1>>)>>,
-                          ShiftCounts, LAMBDA o, x, y, i, j, l : Case("shift", <<Op(o)>>, <<x, y>>, Hash(i, j, l, 4))), IF Thin = 1 THEN 1 ELSE 3)
+FamShift == TProd3(<<"SHL", "SHR">>, IntLits(Ints) \o <<LB(<<>>), LB(Repeat(255, 32)), LB(Repeat(0, 33)), LNull, LBool(TRUE), LArr(<<>>), LBuf(<<1>>)>>,
+                          ShiftCounts, LAMBDA o, x, y, i, j, l : Case("shift", <<Op(o)>>, <<x, y>>, 0), T(8))
 
 PowExps == IntLits(<< I(0), I(1), I(2), I(3), I(4), I(5), I(8), I(15), I(16), I(17), I(31), I(32), I(63), I(64), I(85), I(127), I(128),
                       I(254), I(255), I(256), I(257), I(-1), I(2147483647), P(63) >>) \o <<LNull, LB(<<2>>)>>
-FamPow == Thinned(Prod2(IntLits(Ints) \o <<LB(<<3>>), LBool(TRUE), LNull>>, PowExps,
-                        LAMBDA x, y, i, j : Case("pow", <<Op("POW")>>, <<x, y>>, Hash(i, j, 0, 5))), IF Thin = 1 THEN 1 ELSE 3)
+FamPow == TProd2(IntLits(Ints) \o <<LB(<<3>>), LBool(TRUE), LNull>>, PowExps,
+                        LAMBDA x, y, i, j : Case("pow", <<Op("POW")>>, <<x, y>>, 0), T(8))
 
 \* three-operand numeric instructions over a reduced boundary set
 Ints3 == << I(0), I(1), I(-1), I(2), I(-2), I(3), I(7), I(-7), I(10), P(63), BI!Neg(P(127)), BI!Sub(P(255), I(1)), BI!Neg(P(255)),
             BI!Sub(P(128), I(1)), RndBig(11, 17, FALSE), RndBig(12, 17, TRUE), RndBig(13, 9, FALSE), RndBig(14, 4, TRUE) >>
-FamTri == Thinned(Prod4(<<"MODMUL", "WITHIN">>, IntLits(Ints3), IntLits(Ints3), IntLits(Ints3),
-                        LAMBDA o, x, y, z, h, i, j, l : Case("tri", <<Op(o)>>, <<x, y, z>>, Hash(h * 31 + i, j, l, 6))),
-                  IF Thin = 1 THEN 2 ELSE Thin)
+FamTri == TProd4(<<"MODMUL", "WITHIN">>, IntLits(Ints3), IntLits(Ints3), IntLits(Ints3),
+                        LAMBDA o, x, y, z, h, i, j, l : Case("tri", <<Op(o)>>, <<x, y, z>>, 0), T(1))
 \* MODPOW: small exponents (-2 .. 5) and modular inverses, every sign combination ...
 SmallInts == << I(0), I(1), I(-1), I(2), I(-2), I(3), I(-3), I(4), I(5), I(-5), I(6), I(7), I(-7), I(12), I(35), I(-36) >>
-FamModPow == Thinned(Prod3(IntLits(SmallInts \o <<P(63), BI!Neg(P(255)), RndBig(15, 17, TRUE)>>),
+FamModPow == TProd3(IntLits(SmallInts \o <<P(63), BI!Neg(P(255)), RndBig(15, 17, TRUE)>>),
                            IntLits(<< I(-2), I(-1), I(0), I(1), I(2), I(3), I(4), I(5) >>) \o <<LNull>>,
                            IntLits(SmallInts \o <<BI!Sub(P(255), I(1)), BI!Neg(P(255)), RndBig(16, 17, FALSE)>>) \o <<LB(<<>>)>>,
-                           LAMBDA x, y, z, i, j, l : Case("modpow", <<Op("MODPOW")>>, <<x, y, z>>, Hash(i, j, l, 7))),
-                     IF Thin = 1 THEN 1 ELSE Thin \div 2)
+                           LAMBDA x, y, z, i, j, l : Case("modpow", <<Op("MODPOW")>>, <<x, y, z>>, 0), T(2))
 \* ... and full-size exponents (seconds each in TLC: few)
-FamModPowBig == Thinned(Prod3(IntLits(<< I(3), I(-3), RndBig(17, 17, FALSE), BI!Neg(P(255)), BI!Sub(P(255), I(1)) >>),
+FamModPowBig == TProd3(IntLits(<< I(3), I(-3), RndBig(17, 17, FALSE), BI!Neg(P(255)), BI!Sub(P(255), I(1)) >>),
                               IntLits(<< P(64), BI!Sub(P(255), I(1)), BI!Sub(P(255), I(2)), RndBig(18, 17, FALSE) >>),
                               IntLits(<< I(7), I(-7), I(1), I(-1), I(0), BI!Sub(P(255), I(1)), BI!Neg(P(255)), RndBig(19, 17, FALSE) >>),
-                              LAMBDA x, y, z, i, j, l : Case("modpowbig", <<Op("MODPOW")>>, <<x, y, z>>, Hash(i, j, l, 12))),
-                        IF Thin = 1 THEN 1 ELSE 10)
-FamTriMixed == Thinned(Prod4(<<"MODMUL", "WITHIN", "MODPOW", "SUBSTR", "SETITEM", "ROT", "REVERSE3">>, Mixed, Mixed, Mixed,
-                        LAMBDA o, x, y, z, h, i, j, l : Case("trimixed", <<Op(o)>>, <<x, y, z>>, Hash(h * 31 + i, j, l, 8))),
-                       IF Thin = 1 THEN 4 ELSE 40)
+                              LAMBDA x, y, z, i, j, l : Case("modpowbig", <<Op("MODPOW")>>, <<x, y, z>>, 0), T(4))
+FamTriMixed == TProd4(<<"MODMUL", "WITHIN", "MODPOW", "SUBSTR", "SETITEM", "ROT", "REVERSE3">>, Mixed, Mixed, Mixed,
+                        LAMBDA o, x, y, z, h, i, j, l : Case("trimixed", <<Op(o)>>, <<x, y, z>>, 0), 2 * Thin)
 
 \* types: every type byte of the enumeration, and undefined ones
 TypeBytes == << 0, 16, 32, 33, 40, 48, 64, 65, 72, 96, 1, 34, 153, 255 >>
-FamConv == Prod3(<<"CONVERT", "ISTYPE">>, TypeBytes, AllOperands,
-                 LAMBDA o, ty, x, i, j, l : Case("conv", <<[op |-> o, ty |-> ty]>>, <<x>>, 0))
+FamConv == TProd3(<<"CONVERT", "ISTYPE">>, TypeBytes, AllOperands,
+                 LAMBDA o, ty, x, i, j, l : Case("conv", <<[op |-> o, ty |-> ty]>>, <<x>>, 0), T(13))
 FamNewArrayT == Prod2(TypeBytes, IntLits(<<I(0), I(1), I(3), I(-1), I(2048), I(2049), P(63)>>) \o <<LNull, LB(<<2>>), LBool(TRUE)>>,
                       LAMBDA ty, x, i, j : Case("newarrayt", <<[op |-> "NEWARRAYT", ty |-> ty], Op("DUP"), Op("SIZE")>>, <<x>>, 0))
 
 \* constants
-PadBytes(n, w) == LET b == BI!ToBytesLE(n) IN b \o Repeat(IF n.neg THEN 255 ELSE 0, w - Len(b))
-FitW(n, w) == BI!ByteLen(n) <= w
 PushIntName == [w \in {1, 2, 4, 8, 16, 32} |-> CASE w = 1 -> "PUSHINT8" [] w = 2 -> "PUSHINT16" [] w = 4 -> "PUSHINT32"
                                                  [] w = 8 -> "PUSHINT64" [] w = 16 -> "PUSHINT128" [] w = 32 -> "PUSHINT256"]
 FamPushInt == SelectSeq(Prod2(<<1, 2, 4, 8, 16, 32>>, Ints,
@@ -196,8 +171,8 @@ StackOf(n) == [i \in 1..n |-> LK(10 + i)]
 Counts == << I(-1), I(0), I(1), I(2), I(3), I(4), I(5), I(6), I(2147483647), BI!Add(I(2147483647), I(1)), BI!Neg(P(63)) >>
 FamStack0 == Prod2(<<"DEPTH", "DROP", "NIP", "CLEAR", "DUP", "OVER", "TUCK", "SWAP", "ROT", "REVERSE3", "REVERSE4">>, <<0, 1, 2, 3, 4, 5>>,
                    LAMBDA o, n, i, j : Case("stack", <<Op(o)>>, StackOf(n), 0))
-FamStackN == Prod3(<<"XDROP", "PICK", "ROLL", "REVERSEN", "PACK", "PACKSTRUCT", "PACKMAP">>, <<0, 1, 2, 3, 4, 5>>, IntLits(Counts) \o <<LNull, LB(<<2>>), LBool(TRUE), LB(Repeat(0, 33))>>,
-                   LAMBDA o, n, c, i, j, l : Case("stackn", <<Op(o)>>, StackOf(n) \o <<c>>, 0))
+FamStackN == TProd3(<<"XDROP", "PICK", "ROLL", "REVERSEN", "PACK", "PACKSTRUCT", "PACKMAP">>, <<0, 1, 2, 3, 4, 5>>, IntLits(Counts) \o <<LNull, LB(<<2>>), LBool(TRUE), LB(Repeat(0, 33))>>,
+                   LAMBDA o, n, c, i, j, l : Case("stackn", <<Op(o)>>, StackOf(n) \o <<c>>, 0), T(20))
 
 \* slots
 SlotIdx == << 0, 1, 2, 6, 7, 255 >>
